@@ -38,6 +38,18 @@ def _work(job):
                 rec.vlen.update(g.rec.vlen); rec.names |= g.rec.names
                 r, o = rec.sync("--test-io-cache", "3", rules=["pwrite,/p0,%d,sigint" % (j + 1)])
                 d = ["SIGINT after parity write %d -> %s stop=%s" % (j + 1, o["exit"], rec.lines[-1]["args"]["opts"]["stop"])]
+                if j % 2 == 1 and confkw["nd"] > 1:
+                    # before the sync is run again, files are copied (cp -p) to another disk: also files the stopped sync had
+                    # reached only in part
+                    import shutil as _sh
+                    done = []
+                    for dd in range(confkw["nd"]):
+                        for f in sorted(os.listdir(c.ddir(dd))):
+                            src = c.path(dd, f); dst = c.path((dd + 1) % confkw["nd"], f)
+                            if f != "zz" and os.path.isfile(src) and not os.path.lexists(dst) and os.path.getsize(src) > 1024 and len(done) < 2:
+                                _sh.copy2(src, dst); done.append("%d/%s" % (dd, f))
+                    if done:
+                        rec.env("cp -p %s to the next disk" % " ".join(done)); d.append("cp -p %s to the next disk" % " ".join(done))
                 c.clock += 10
                 r, o = rec.sync(); d.append("resume sync -> %s" % o["exit"])
                 r, o = rec.check(); d.append("check -> %s" % o["exit"])
@@ -46,6 +58,13 @@ def _work(job):
                 c.destroy()
         if fixkill:
             g.rec.sync("-E")
+            for j in range(2):
+                r = crash.fix_sigint_experiment(g, seed=seed * 10 + j)
+                if r:
+                    out.append(_pack(r["rec"], g.steps + r["desc"], seed * 10000 + 7000 + j, "fixsigint", confkw))
+                    if r["diffs"]:
+                        notes.append({"seed": seed, "k": -1, "call": "SIGINT", "diffs": r["diffs"], "damage": "first file of each disk",
+                                      "steps": g.steps + r["desc"]})
             dm = [devices[seed % len(devices)]] + ([devices[(seed + 3) % len(devices)]] if np_ > 1 else [])
             dm = list(dict.fromkeys(dm))
             nf, fcalls = crash.fix_calls(g, dm)
@@ -94,6 +113,7 @@ def run(tier):
                 (s0 + 2, dict(nd=3, np=1, copies=3, splits=[2]), "adds", ("killa", "short"), 3, 2, 0, 1),
                 (s0 + 5, dict(nd=2, np=2, copies=2, splits=[1, 3]), "holes", ("killa",), 1, 3, 0, 0),
                 (s0 + 6, dict(nd=2, np=1, copies=2), "deletes", ("killa",), 1, 4, 0, 0),
+                (s0 + 7, dict(nd=2, np=2, copies=2), "emptydisk", ("killa",), 1, 4, 0, 2),
                 (s0 + 3, dict(nd=2, np=3, copies=1), "mixed", ("killa", "killb"), 3, 4, 4, 1),
                 (s0 + 4, dict(nd=4, np=2, copies=2), "adds", ("killa",), 1, 3, 5, 1)]
     else:
@@ -102,8 +122,8 @@ def run(tier):
                   dict(nd=1, np=1, copies=2), dict(nd=3, np=6, copies=2), dict(nd=2, np=2, copies=2, splits=[1, 3]),
                   dict(nd=3, np=2, copies=2, hash_size=8)]
         for i, sh in enumerate(shapes):
-            for pending in ("adds", "mixed", "holes", "deletes"):
-                jobs.append((s0 + 10 + 4 * i + ("adds", "mixed", "holes", "deletes").index(pending), sh, pending, ("killa", "killb", "short"), 1, 2, 1, 4))
+            for pending in ("adds", "mixed", "holes", "deletes", "emptydisk"):
+                jobs.append((s0 + 10 + 5 * i + ("adds", "mixed", "holes", "deletes", "emptydisk").index(pending), sh, pending, ("killa", "killb", "short"), 1, 2, 1, 4))
     with multiprocessing.Pool(min(8, len(jobs))) as pool:
         res = pool.map(_work, jobs, chunksize=1)
     scs = []
